@@ -1467,7 +1467,12 @@ static int c12_provide(struct urequest *req, va_list args)
         case UREQUEST_UCLOCK: { struct uclock *c = va_arg(args, struct uclock *); ok = c == E.uclock; uclock_release(c); break; }
         case UREQUEST_UBUF_MGR: { struct ubuf_mgr *m = va_arg(args, struct ubuf_mgr *); struct uref *ff = va_arg(args, struct uref *); ok = m != NULL; ubuf_mgr_release(m); uref_free(ff); break; }
         case UREQUEST_FLOW_FORMAT: { struct uref *ff = va_arg(args, struct uref *); ok = ff != NULL; uref_free(ff); break; }
-        case UREQUEST_SINK_LATENCY: { (void)va_arg(args, uint64_t); ok = true; /* pipes on the way may add their own latency */ break; }
+        case UREQUEST_SINK_LATENCY: { uint64_t l = va_arg(args, uint64_t);
+            /* pipes on the way may add their own latency, none takes any away;
+             * a request that reached a probe instead of a sink is answered
+             * with 0 by uprobe_ubuf_mem (plus what the pipes add: well under
+             * 2^30 ticks here), so that only values in between are judged */
+            ok = l >= lab_sink_latency || l < (UINT64_C(1) << 30); VH_COUNT("c12.sink_latency_answers"); if (lab_sink_latency >> 32) VH_COUNT("c12.sink_latency_answers_beyond_32_bits"); break; }
     }
     if (!r->registered) r->late++;
     else { r->provided++; if (!ok) r->bad_value = true; }
@@ -1541,6 +1546,11 @@ static void c12_case(struct vh_rng *r)
     lab_probe_hook = c12_probe_hook;
     lab_env_init(vh_below(R, 3));
     memset(C12R, 0, sizeof(C12R));
+    {   /* latency announced by the sinks of this case */
+        static const uint64_t lat[] = { 12345, 27000000, UINT64_C(0x1c0000309), UINT64_C(5400000000),
+                                        UINT64_C(0x100c0000005), UINT64_C(0xffffffff), UINT64_C(0x7fffffff80000001) };
+        lab_sink_latency = lat[vh_below(R, sizeof(lat) / sizeof(lat[0]))];
+    }
     c12_n = 1 + vh_below(R, C12_MAXP);
     char names[128] = "";
     for (int k = 0; k < c12_n; k++) {
